@@ -7,7 +7,7 @@
 (*                                                                          *)
 (*  tree-git  put : Scan Etag | LockIndex ReadIndex WriteFile(2 halves)     *)
 (*                  AddBlob AddTree ReadHead AddCommit LockRef CheckRef      *)
-(*                  MoveRef WriteIndex                                      *)
+(*                  MoveRef WriteIndex CleanLock                            *)
 (*            del : ReadFile | LockIndex ReadIndex Remove AddTree ReadHead  *)
 (*                  AddCommit LockRef CheckRef MoveRef WriteIndex           *)
 (*  bare-git  put : Scan Etag ReadTree | AddPack ReadHead AddCommit LockRef *)
@@ -288,12 +288,25 @@ MoveRef(p) ==
          ELSE Finish(p, "ok")
     /\ UNCHANGED <<objs, index, indexLock, work, tmp, loc>>
 
+\* locked_index.__exit__: the lock file (holding the new index) is renamed over the index ...
 WriteIndex(p) ==
     /\ pc[p] = "writeindex"
-    /\ index' = loc[p].idx
+    /\ IF indexLock = p
+         THEN /\ index' = loc[p].idx
+              /\ indexLock' = NoProc
+              /\ Goto(p, "cleanlock") /\ UNCHANGED <<opi, results>>
+         ELSE \* its lock file is gone (see CleanLock): the rename fails, the writer ends with an
+              \* exception - after it has changed the work tree and moved the ref
+              /\ Finish(p, "Error") /\ UNCHANGED <<index, indexLock>>
+    /\ UNCHANGED <<objs, ref, refLock, work, tmp, loc>>
+
+\* ... and dulwich's GitFile.close() then still removes <index>.lock BY NAME (its abort()):
+\* whoever has created that file in the meantime loses it (finding F-C05-15)
+CleanLock(p) ==
+    /\ pc[p] = "cleanlock"
     /\ indexLock' = NoProc
     /\ Finish(p, "ok")
-    /\ UNCHANGED <<objs, ref, refLock, work, tmp, loc>>
+    /\ UNCHANGED <<objs, ref, refLock, index, work, tmp, loc>>
 
 ----------------------------------------------------------------------------
 (* vdir                                                                      *)
@@ -327,7 +340,7 @@ Step(p) ==
     \/ ReadFile(p) \/ LockIndex(p) \/ ReadIndex(p) \/ WriteFile0(p) \/ WriteFile1(p)
     \/ AddBlob(p) \/ RemoveWork(p) \/ AddTree(p)
     \/ ReadTree(p) \/ AddPack(p)
-    \/ ReadHead(p) \/ AddCommit(p) \/ LockRef(p) \/ CheckRef(p) \/ MoveRef(p) \/ WriteIndex(p)
+    \/ ReadHead(p) \/ AddCommit(p) \/ LockRef(p) \/ CheckRef(p) \/ MoveRef(p) \/ WriteIndex(p) \/ CleanLock(p)
     \/ WriteTmp(p) \/ Rename(p) \/ RemoveVdir(p)
 
 Next == (\E p \in Proc : Step(p)) /\ UNCHANGED Prog
